@@ -1317,3 +1317,599 @@ _BUILTINS = {
     "len": _bi_len, "bool": _bi_bool, "any": _bi_any, "all": _bi_all, "tuple": _bi_tuple, "list": _bi_list, "dict": _bi_dict,
     "type": _bi_type, "reversed": _bi_reversed, "enumerate": _bi_enumerate, "zip": _bi_zip,
 }
+
+
+# -- concrete address evaluation (C10.i) ------------------------------------------------------------------------
+#
+# "Is this address a multicast address" is a statement about what UDP6EndpointAddress.is_multicast /
+# .is_multicast_locally COMPUTE, not about how they are spelled (split vs partition, a temporary for the address
+# object, a helper that unpacks the pktinfo, a conditional expression in _strip_v4mapped ...).  AddrMachine runs the
+# properties on representative concrete addresses.  It extends the scenario evaluator by
+#   * exact strings and bytes (methods, + and %, f-strings, indexing and slicing, str()/int()/bytes()),
+#   * the checker's own model of the standard-library pieces the address code leans on: `ipaddress` (address and
+#     network objects), `struct` (Struct / pack / unpack / unpack_from), `socket.if_indextoname` / inet_pton /
+#     inet_ntop.  The model states the semantics the verdict depends on explicitly instead of inheriting them from
+#     the interpreter the checker happens to run under: IPv6Address.is_multicast is "in ff00::/8", and only from
+#     Python 3.13 on additionally "or the embedded IPv4 address is multicast" (`mapped_aware`); the text of a
+#     v4-mapped IPv6Address is `::ffff:e000:1bb` before 3.13 and `::ffff:224.0.1.187` from 3.13 on.
+# Nothing of the analysed repository is imported or executed; the host's ipaddress module is used only to parse and
+# print address literals, the host's struct module only on a format string that passes a whitelist.
+
+import ipaddress as _host_ip
+import re as _re
+import struct as _host_struct
+
+_BUILTIN_PARENTS = {
+    "ipaddress.AddressValueError": "ValueError", "ipaddress.NetmaskValueError": "ValueError", "ValueError": "Exception", "UnicodeError": "ValueError",
+    "UnicodeDecodeError": "UnicodeError", "UnicodeEncodeError": "UnicodeError",
+    "struct.error": "Exception", "socket.gaierror": "OSError", "socket.herror": "OSError", "socket.timeout": "OSError", "socket.error": "OSError", "OSError": "Exception",
+    "IOError": "OSError", "EnvironmentError": "OSError",
+    "TypeError": "Exception", "KeyError": "LookupError", "IndexError": "LookupError", "LookupError": "Exception", "AttributeError": "Exception",
+    "NameError": "Exception", "AssertionError": "Exception", "RuntimeError": "Exception", "NotImplementedError": "RuntimeError", "ZeroDivisionError": "ArithmeticError",
+    "ArithmeticError": "Exception", "OverflowError": "ArithmeticError", "Exception": "BaseException",
+}
+_EXC_ALIASES = {"socket.error": "OSError", "IOError": "OSError", "EnvironmentError": "OSError", "socket.timeout": "TimeoutError"}
+
+_STR_METHODS = {
+    "split", "rsplit", "partition", "rpartition", "strip", "lstrip", "rstrip", "startswith", "endswith", "lower", "upper", "find", "rfind", "index",
+    "rindex", "count", "replace", "removeprefix", "removesuffix", "join", "format", "encode", "decode", "isdigit", "isdecimal", "isalnum", "isalpha",
+    "splitlines", "zfill", "hex", "casefold", "title", "ljust", "rjust", "center", "expandtabs",
+}
+_STRUCT_FMT = _re.compile(r"^[@=<>!]?(?:\s*\d{0,3}[xcbB?hHiIlLqQnNsp])+\s*$")
+
+
+def ip_is_multicast(version, value, mapped_aware=False):
+    """the reference AND the library model.  IPv4: 224.0.0.0/4.  IPv6: ff00::/8; an IPv4-mapped address
+    (::ffff:a.b.c.d) is in ::/8, so the library calls it multicast only where it looks through the mapping (3.13+)."""
+    if version == 4:
+        return (value >> 28) == 0xE
+    if mapped_aware and (value >> 32) == 0xFFFF:
+        return ((value & 0xFFFFFFFF) >> 28) == 0xE
+    return (value >> 120) == 0xFF
+
+
+def reference_is_multicast(version, value):
+    """what the property calls a multicast address: an IPv6 group, an IPv4 group, or an IPv4 group in its
+    v4-mapped IPv6 spelling (what a dual-stack socket reports for 224.0.1.187)"""
+    return ip_is_multicast(version, value, mapped_aware=True)
+
+
+class AddrMachine(Machine):
+    """if_names: {interface index: name} known to socket.if_indextoname (any other index raises OSError);
+    mapped_aware: model the ipaddress module of Python >= 3.13."""
+
+    def __init__(self, prog, cls, self_obj, consts=None, preds=None, stubs=None, if_names=None, mapped_aware=False, max_steps=20000):
+        Machine.__init__(self, prog, cls, self_obj, consts or {}, preds or {}, stubs, max_steps)
+        self.if_names = dict(if_names or {})
+        self.mapped_aware = mapped_aware
+
+    # -- values ---------------------------------------------------------------------------------------------
+    def native(self, v, what):
+        """v as a Python value made of str/bytes/int/bool/None/tuple/list only"""
+        if isinstance(v, NATIVE):
+            return v
+        if isinstance(v, tuple):
+            return tuple(self.native(x, what) for x in v)
+        if isinstance(v, Obj) and v.kind == "list":
+            return [self.native(x, what) for x in v.data]
+        raise Unknown("%s over %r" % (what, v))
+
+    def wrap(self, v):
+        if isinstance(v, list):
+            return new_list([self.wrap(x) for x in v])
+        if isinstance(v, tuple):
+            return tuple(self.wrap(x) for x in v)
+        return v
+
+    def text_of(self, v, what="str()"):
+        if isinstance(v, Obj) and isinstance(v.data, dict) and "text" in v.data:
+            return v.data["text"]
+        if isinstance(v, bool) or v is None or isinstance(v, (int, str)):
+            return str(v)
+        if isinstance(v, bytes):
+            return str(v)
+        raise Unknown("%s of %r" % (what, v))
+
+    def ip_obj(self, host):
+        """heap individual for an address parsed by the host's ipaddress module (used as a parser only)"""
+        version, value = host.version, int(host)
+        scope = getattr(host, "scope_id", None)
+        attrs = {"version": version, "packed": host.packed, "max_prefixlen": 32 if version == 4 else 128,
+                 "is_multicast": ip_is_multicast(version, value, self.mapped_aware)}
+        if version == 4:
+            text = str(_host_ip.IPv4Address(value))
+            attrs["compressed"] = text
+            attrs["exploded"] = text
+        else:
+            mapped = None
+            if (value >> 32) == 0xFFFF:
+                mapped = self.ip_obj(_host_ip.IPv4Address(value & 0xFFFFFFFF))
+                text = "::ffff:" + mapped.data["text"] if self.mapped_aware else "::ffff:%x:%x" % ((value >> 16) & 0xFFFF, value & 0xFFFF)
+            else:
+                text = _host_ip.IPv6Address(value).compressed
+            if scope:
+                text += "%" + scope
+            attrs.update({"ipv4_mapped": mapped, "scope_id": scope, "compressed": text,
+                          "exploded": _host_ip.IPv6Address(value).exploded + ("%" + scope if scope else "")})
+        self.counter += 1
+        o = Obj("obj", "IPv%dAddress(%s)" % (version, text), attrs=attrs, data={"ip": (version, value, scope), "text": text})
+        return o
+
+    def make_ip(self, which, args, kwargs, node):
+        if kwargs or len(args) != 1:
+            raise Unknown("ipaddress.%s%r" % (which, tuple(args)))
+        a = args[0]
+        if isinstance(a, Obj) and isinstance(a.data, dict) and "ip" in a.data:
+            if which == "ip_address":
+                raise Raised("ValueError", node)  # ip_address() of an address object: 'does not appear to be an IPv4 or IPv6 address'
+            a = a.data["text"]  # the constructors fall back to str(address)
+        if isinstance(a, bool) or not isinstance(a, (str, bytes, int)):
+            raise Unknown("ipaddress.%s(%r)" % (which, a))
+        try:
+            host = getattr(_host_ip, which)(a)
+        except ValueError:
+            raise Raised("ValueError" if which == "ip_address" else "ipaddress.AddressValueError", node)
+        return self.ip_obj(host)
+
+    def make_net(self, which, args, kwargs, node):
+        strict = kwargs.pop("strict", True) if kwargs else True
+        if kwargs or not 1 <= len(args) <= 2 or not isinstance(args[0], str):
+            raise Unknown("ipaddress.%s%r" % (which, tuple(args)))
+        if len(args) == 2:
+            strict = args[1]
+        try:
+            host = getattr(_host_ip, which)(args[0], strict=bool(strict))
+        except ValueError:
+            raise Raised("ValueError", node)
+        return Obj("obj", "%s(%s)" % (which, host), data={"net": (host.version, int(host.network_address), host.prefixlen), "text": str(host)},
+                   attrs={"version": host.version, "prefixlen": host.prefixlen, "network_address": self.ip_obj(host.network_address)})
+
+    def make_struct(self, fmt):
+        if isinstance(fmt, bytes):
+            fmt = fmt.decode("ascii", "replace")
+        if not isinstance(fmt, str) or not _STRUCT_FMT.match(fmt):
+            raise Unknown("struct format %r" % (fmt,))
+        return Obj("obj", "Struct(%r)" % fmt, data={"struct": fmt}, attrs={"size": _host_struct.calcsize(fmt), "format": fmt},
+                   methods={"unpack": _struct_method("unpack"), "unpack_from": _struct_method("unpack_from"), "pack": _struct_method("pack")})
+
+    def struct_op(self, op, fmt, args, kwargs, node):
+        if not isinstance(fmt, str) or not _STRUCT_FMT.match(fmt):
+            raise Unknown("struct format %r" % (fmt,))
+        if op == "unpack_from" and "offset" in kwargs:
+            args = list(args) + [kwargs.pop("offset")]
+        if kwargs:
+            raise Unknown("struct.%s with keywords" % op)
+        vals = [self.native(a, "struct.%s" % op) for a in args]
+        if op != "pack" and vals and vals[0] is None:
+            raise Raised("TypeError", node)
+        try:
+            return getattr(_host_struct, op)(fmt, *vals)
+        except _host_struct.error:
+            raise Raised("struct.error", node)
+        except TypeError:
+            raise Raised("TypeError", node)
+
+    # -- equality / membership / truth -----------------------------------------------------------------------
+    def eq(self, a, b, identity=False):
+        if not identity and isinstance(a, Obj) and isinstance(b, Obj) and isinstance(a.data, dict) and isinstance(b.data, dict):
+            for key in ("ip", "net"):
+                if key in a.data and key in b.data:
+                    return a.data[key] == b.data[key]
+        return Machine.eq(self, a, b, identity)
+
+    def contains(self, container, item):
+        if isinstance(container, Obj) and isinstance(container.data, dict) and "net" in container.data:
+            if not (isinstance(item, Obj) and isinstance(item.data, dict) and "ip" in item.data):
+                raise Unknown("membership of %r in %r" % (item, container))
+            version, base, plen = container.data["net"]
+            iv, value, _scope = item.data["ip"]
+            bits = 32 if version == 4 else 128
+            # an address of the other family is never in the network
+            if iv != version:
+                return False
+            return plen == 0 or (value >> (bits - plen)) == (base >> (bits - plen))
+        return Machine.contains(self, container, item)
+
+    def iterate(self, v):
+        if isinstance(v, (str, bytes)):
+            return list(v)
+        return Machine.iterate(self, v)
+
+    # -- names, attributes, calls ----------------------------------------------------------------------------
+    def lookup_name(self, name, fr, node):
+        try:
+            v = Machine.lookup_name(self, name, fr, node)
+        except Unknown:
+            if name in _ADDR_BUILTINS:
+                return Obj("builtin", name, data=_ADDR_BUILTINS[name])
+            raise
+        if isinstance(v, Obj) and v.kind == "builtin" and v.tag == name and name in _ADDR_BUILTINS:
+            return Obj("builtin", name, data=_ADDR_BUILTINS[name])
+        if isinstance(v, Obj) and v.kind == "module":
+            ext = self.external(v.tag)
+            if ext is not _MISSING:
+                return ext
+        return v
+
+    def external(self, qn):
+        """value of a standard-library name the model covers, else _MISSING"""
+        if qn in _ADDR_EXTERNALS:
+            return Obj("builtin", qn, data=_ADDR_EXTERNALS[qn])
+        if qn in ("socket.AF_INET6", "socket.AF_INET"):
+            return Sym(qn.split(".")[-1])
+        if qn in _BUILTIN_PARENTS and "." in qn:
+            return Obj("class", qn)
+        return _MISSING
+
+    def getattr(self, v, attr, node=None):
+        if isinstance(v, (str, bytes)):
+            if attr in _STR_METHODS:
+                return Obj("bound", "%s.%s" % (type(v).__name__, attr), data=(v, attr))
+            raise Unknown("attribute .%s of %r" % (attr, v))
+        if isinstance(v, Obj):
+            if v.kind == "module":
+                ext = self.external(v.tag + "." + attr)
+                if ext is not _MISSING:
+                    return ext
+            if v.kind in ("class", "self") and attr not in v.attrs:
+                qn = v.tag if v.kind == "class" else self.cls.qn
+                fi = self.prog.lookup_method(qn, attr) if qn in self.prog.classes else None
+                if fi is not None:
+                    decos = [chain(d) for d in fi.node.decorator_list]
+                    if v.kind == "self" and len(decos) == 1 and decos[0] in ("functools.cached_property", "cached_property"):
+                        # evaluated on first access, then an instance attribute
+                        val = self.call_funcinfo(fi, [v], {}, node)
+                        v.attrs[attr] = val
+                        return val
+                    if decos == ["staticmethod"] or (v.kind == "class" and not decos):
+                        # Class.method: the plain function (self is passed explicitly); static methods the same from an instance
+                        return Obj("func", fi.qn, data={"node": fi.node, "frame": None, "module": fi.module, "defaults": None})
+                    if decos == ["classmethod"]:
+                        f = Obj("func", fi.qn, data={"node": fi.node, "frame": None, "module": fi.module, "defaults": None})
+                        return Obj("partial", "partial", data=(f, (Obj("class", qn),), {}))
+        return Machine.getattr(self, v, attr, node)
+
+    def call_value(self, fn, args, kwargs, node):
+        if isinstance(fn, Obj) and fn.kind == "class" and fn.tag in _BUILTIN_PARENTS:
+            return Obj("excinst", fn.tag, data=tuple(args))
+        return Machine.call_value(self, fn, args, kwargs, node)
+
+    def call_attr(self, recv, name, args, kwargs, node):
+        if isinstance(recv, (str, bytes)):
+            return self.str_method(recv, name, args, kwargs, node)
+        if isinstance(recv, Obj) and recv.kind == "self" and name not in recv.attrs and name not in recv.methods and name not in self.stubs:
+            fi = self.prog.lookup_method(self.cls.qn, name)
+            if fi is not None and [chain(d) for d in fi.node.decorator_list] == ["classmethod"]:
+                return self.call_funcinfo(fi, [Obj("class", self.cls.qn)] + list(args), kwargs, node)
+        if isinstance(recv, Obj) and recv.kind == "obj" and not recv.token and isinstance(recv.data, dict) and ("ip" in recv.data or "net" in recv.data or "struct" in recv.data) \
+                and name not in recv.attrs and name not in recv.methods:
+            raise Unknown("method .%s() of %r" % (name, recv))
+        return Machine.call_attr(self, recv, name, args, kwargs, node)
+
+    def str_method(self, s, name, args, kwargs, node):
+        if name not in _STR_METHODS or (isinstance(s, bytes) and name in ("format", "encode")) or (isinstance(s, str) and name in ("decode", "hex")):
+            raise Unknown("method %s.%s()" % (type(s).__name__, name))
+        if name == "join":
+            if kwargs or len(args) != 1:
+                raise Unknown("join%r" % (tuple(args),))
+            parts = [self.native(x, "join") for x in self.iterate(args[0])]
+            if not all(isinstance(p, type(s)) for p in parts):
+                raise Raised("TypeError", node)
+            return s.join(parts)
+        if name == "format":
+            a = [self.text_of(x, "format()") if isinstance(x, Obj) else self.native(x, "format()") for x in args]
+            kw = {k: (self.text_of(x, "format()") if isinstance(x, Obj) else self.native(x, "format()")) for k, x in kwargs.items()}
+            try:
+                return s.format(*a, **kw)
+            except (IndexError, KeyError, ValueError, TypeError) as e:
+                raise Raised(type(e).__name__, node)
+        a = [self.native(x, "%s.%s()" % (type(s).__name__, name)) for x in args]
+        kw = {k: self.native(x, "%s.%s()" % (type(s).__name__, name)) for k, x in kwargs.items()}
+        try:
+            return self.wrap(getattr(s, name)(*a, **kw))
+        except (ValueError, TypeError, UnicodeError, LookupError) as e:
+            cls = type(e).__name__
+            raise Raised(cls if cls in _BUILTIN_PARENTS else "ValueError" if isinstance(e, ValueError) else "Exception", node)
+
+    # -- expressions ----------------------------------------------------------------------------------------
+    def binop(self, op, l, r, e):
+        for t in (str, bytes):
+            if isinstance(l, t):
+                if isinstance(op, ast.Add):
+                    if isinstance(r, t):
+                        return l + r
+                    if isinstance(r, NATIVE) or isinstance(r, (tuple, Obj)) and not (isinstance(r, Obj) and r.token):
+                        raise Raised("TypeError", e)
+                if isinstance(op, ast.Mult) and isinstance(r, int) and not isinstance(r, bool) and 0 <= r <= 64:
+                    return l * r
+                if isinstance(op, ast.Mod):
+                    vals = tuple(self.fmt_arg(x) for x in r) if isinstance(r, tuple) else (self.fmt_arg(r),)
+                    try:
+                        return l % vals
+                    except (TypeError, ValueError) as x:
+                        raise Raised(type(x).__name__, e)
+                raise Unknown("expression `%s` over %r and %r" % (stmt_text(e, 60), l, r))
+        if isinstance(l, int) and not isinstance(l, bool) and isinstance(r, (str, bytes)) and isinstance(op, ast.Mult) and 0 <= l <= 64:
+            return l * r
+        return Machine.binop(self, op, l, r, e)
+
+    def fmt_arg(self, v):
+        if isinstance(v, Obj):
+            return _Text(self.text_of(v, "%-formatting"))
+        return self.native(v, "%-formatting")
+
+    def ev_JoinedStr(self, e, fr):
+        out = []
+        for part in e.values:
+            if isinstance(part, ast.Constant):
+                out.append(str(part.value))
+                continue
+            v = self.ev(part.value, fr)
+            spec = ""
+            if part.format_spec is not None:
+                spec = self.ev_JoinedStr(part.format_spec, fr)
+            if part.conversion in (115, 114, 97) or isinstance(v, Obj):  # !s !r !a
+                if part.conversion in (114, 97) and not isinstance(v, NATIVE):
+                    raise Unknown("repr() of %r in an f-string" % (v,))
+                v = self.text_of(v, "formatting") if part.conversion != 114 else repr(v)
+            elif not isinstance(v, NATIVE):
+                raise Unknown("formatting of %r" % (v,))
+            try:
+                out.append(format(v, spec))
+            except (ValueError, TypeError) as x:
+                raise Raised(type(x).__name__, e)
+        return "".join(out)
+
+    def ev_Subscript(self, e, fr):
+        if isinstance(e.slice, ast.Slice):
+            v = self.ev(e.value, fr)
+            b = [None if x is None else self.ev(x, fr) for x in (e.slice.lower, e.slice.upper, e.slice.step)]
+            if any(x is not None and (not isinstance(x, int) or isinstance(x, bool)) for x in b) or b[2] == 0:
+                raise Unknown("slice `%s`" % stmt_text(e, 60))
+            if isinstance(v, (str, bytes, tuple)):
+                return v[slice(*b)]
+            if isinstance(v, Obj) and v.kind == "list":
+                return new_list(v.data[slice(*b)])
+            raise Unknown("slice `%s`" % stmt_text(e, 60))
+        return Machine.ev_Subscript(self, e, fr)
+
+    def getitem(self, v, k, node):
+        if isinstance(v, (str, bytes)):
+            if not isinstance(k, int) or isinstance(k, bool):
+                raise Raised("TypeError", node)
+            if not -len(v) <= k < len(v):
+                raise Raised("IndexError", node)
+            return v[k]
+        return Machine.getitem(self, v, k, node)
+
+    def ev_Compare(self, e, fr):
+        # ordering of two strings / two byte strings is exact here
+        if len(e.ops) == 1 and isinstance(e.ops[0], (ast.Lt, ast.LtE, ast.Gt, ast.GtE)):
+            l, r = self.ev(e.left, fr), self.ev(e.comparators[0], fr)
+            for t in (str, bytes):
+                if isinstance(l, t) and isinstance(r, t):
+                    return {ast.Lt: l < r, ast.LtE: l <= r, ast.Gt: l > r, ast.GtE: l >= r}[type(e.ops[0])]
+            if isinstance(l, (int, float)) and isinstance(r, (int, float)) and not isinstance(l, bool) and not isinstance(r, bool):
+                return {ast.Lt: l < r, ast.LtE: l <= r, ast.Gt: l > r, ast.GtE: l >= r}[type(e.ops[0])]
+            raise Unknown("ordering of %r and %r in `%s`" % (l, r, stmt_text(e, 60)))
+        return Machine.ev_Compare(self, e, fr)
+
+    # -- statements -----------------------------------------------------------------------------------------
+    def assign(self, t, v, fr):
+        if isinstance(t, (ast.Tuple, ast.List)) and sum(isinstance(x, ast.Starred) for x in t.elts) == 1:
+            if isinstance(v, Obj) and v.token:
+                raise Unknown("unpacking of %r, about which nothing is known," % v)
+            seq = self.iterate(v)
+            i = [isinstance(x, ast.Starred) for x in t.elts].index(True)
+            after = len(t.elts) - i - 1
+            if len(seq) < len(t.elts) - 1:
+                raise Raised("ValueError", t)
+            for x, y in zip(t.elts[:i], seq[:i]):
+                self.assign(x, y, fr)
+            self.assign(t.elts[i].value, new_list(seq[i:len(seq) - after]), fr)
+            for x, y in zip(t.elts[i + 1:], seq[len(seq) - after:] if after else []):
+                self.assign(x, y, fr)
+            return
+        Machine.assign(self, t, v, fr)
+
+    def exc_class_of(self, e, fr):
+        q = Machine.exc_class_of(self, e, fr)
+        return _EXC_ALIASES.get(q, q)
+
+    def exc_matches(self, raised, handler_qn):
+        c = raised
+        seen = 0
+        while c is not None and seen < 16:
+            if c == handler_qn:
+                return True
+            c = _BUILTIN_PARENTS.get(c)
+            seen += 1
+        return Machine.exc_matches(self, raised, handler_qn)
+
+
+class _Text(str):
+    """str() of a modelled object inside %-formatting (`%s` and `%r` both see the text; %d refuses it as Python does)"""
+
+
+def _struct_method(op):
+    def call(m, recv, args, kwargs, node):
+        return m.wrap(m.struct_op(op, recv.data["struct"], args, dict(kwargs), node))
+    return call
+
+
+def _ext_struct(op):
+    def call(m, args, kwargs, node):
+        if not args:
+            raise Unknown("struct.%s()" % op)
+        fmt = args[0].decode("ascii", "replace") if isinstance(args[0], bytes) else args[0]
+        return m.wrap(m.struct_op(op, fmt, args[1:], dict(kwargs), node))
+    return call
+
+
+def _ext_ip(which):
+    return lambda m, args, kwargs, node: m.make_ip(which, args, dict(kwargs), node)
+
+
+def _ext_net(which):
+    return lambda m, args, kwargs, node: m.make_net(which, args, dict(kwargs), node)
+
+
+def _ext_if_indextoname(m, args, kwargs, node):
+    if kwargs or len(args) != 1:
+        raise Unknown("socket.if_indextoname%r" % (tuple(args),))
+    i = args[0]
+    if isinstance(i, bool) or not isinstance(i, int):
+        raise Raised("TypeError", node)
+    if i in m.if_names:
+        return m.if_names[i]
+    raise Raised("OSError", node)
+
+
+def _ext_if_nametoindex(m, args, kwargs, node):
+    if kwargs or len(args) != 1 or not isinstance(args[0], str):
+        raise Unknown("socket.if_nametoindex%r" % (tuple(args),))
+    for i, n in m.if_names.items():
+        if n == args[0]:
+            return i
+    raise Raised("OSError", node)
+
+
+def _family(m, v, what):
+    if isinstance(v, Sym) and str(v) in ("AF_INET", "AF_INET6"):
+        return 4 if str(v) == "AF_INET" else 6
+    raise Unknown("%s with the address family %r" % (what, v))
+
+
+def _ext_inet_pton(m, args, kwargs, node):
+    if kwargs or len(args) != 2:
+        raise Unknown("socket.inet_pton%r" % (tuple(args),))
+    fam = _family(m, args[0], "inet_pton")
+    if not isinstance(args[1], str):
+        raise Raised("TypeError", node)
+    try:
+        host = (_host_ip.IPv4Address if fam == 4 else _host_ip.IPv6Address)(args[1])
+    except ValueError:
+        raise Raised("OSError", node)
+    if getattr(host, "scope_id", None):
+        raise Raised("OSError", node)  # inet_pton does not take a zone
+    return host.packed
+
+
+def _ext_inet_ntop(m, args, kwargs, node):
+    if kwargs or len(args) != 2:
+        raise Unknown("socket.inet_ntop%r" % (tuple(args),))
+    fam = _family(m, args[0], "inet_ntop")
+    if not isinstance(args[1], bytes):
+        raise Raised("TypeError", node)
+    if len(args[1]) != (4 if fam == 4 else 16):
+        raise Raised("ValueError", node)
+    if fam == 4:
+        return str(_host_ip.IPv4Address(args[1]))
+    value = int.from_bytes(args[1], "big")
+    if (value >> 32) == 0xFFFF:
+        return "::ffff:" + str(_host_ip.IPv4Address(value & 0xFFFFFFFF))  # the C library prints mapped addresses dotted
+    return _host_ip.IPv6Address(value).compressed
+
+
+def _ext_struct_ctor(m, args, kwargs, node):
+    if kwargs or len(args) != 1:
+        raise Unknown("struct.Struct%r" % (tuple(args),))
+    return m.make_struct(args[0])
+
+
+def _ext_calcsize(m, args, kwargs, node):
+    if kwargs or len(args) != 1 or not isinstance(args[0], str) or not _STRUCT_FMT.match(args[0]):
+        raise Unknown("struct.calcsize%r" % (tuple(args),))
+    return _host_struct.calcsize(args[0])
+
+
+_ADDR_EXTERNALS = {
+    "ipaddress.ip_address": _ext_ip("ip_address"), "ipaddress.IPv6Address": _ext_ip("IPv6Address"), "ipaddress.IPv4Address": _ext_ip("IPv4Address"),
+    "ipaddress.ip_network": _ext_net("ip_network"), "ipaddress.IPv6Network": _ext_net("IPv6Network"), "ipaddress.IPv4Network": _ext_net("IPv4Network"),
+    "socket.if_indextoname": _ext_if_indextoname, "socket.if_nametoindex": _ext_if_nametoindex,
+    "socket.inet_pton": _ext_inet_pton, "socket.inet_ntop": _ext_inet_ntop,
+    "struct.Struct": _ext_struct_ctor, "struct.unpack": _ext_struct("unpack"), "struct.unpack_from": _ext_struct("unpack_from"),
+    "struct.pack": _ext_struct("pack"), "struct.calcsize": _ext_calcsize,
+}
+
+
+def _abi_str(m, args, kwargs, node):
+    if kwargs or len(args) > 1:
+        if len(args) in (2, 3) and isinstance(args[0], bytes) and all(isinstance(a, str) for a in args[1:]) and not kwargs:
+            try:
+                return str(*args)
+            except (UnicodeError, LookupError):
+                raise Raised("ValueError", node)
+        raise Unknown("str%r" % (tuple(args),))
+    return m.text_of(args[0]) if args else ""
+
+
+def _abi_repr(m, args, kwargs, node):
+    (v,) = args
+    if isinstance(v, NATIVE):
+        return repr(v)
+    raise Unknown("repr(%r)" % (v,))
+
+
+def _abi_int(m, args, kwargs, node):
+    if kwargs or not 1 <= len(args) <= 2:
+        raise Unknown("int%r" % (tuple(args),))
+    v = args[0]
+    if isinstance(v, Obj) and isinstance(v.data, dict) and "ip" in v.data and len(args) == 1:
+        return v.data["ip"][1]
+    if isinstance(v, (int, str, bytes)) and all(isinstance(a, int) and not isinstance(a, bool) for a in args[1:]):
+        try:
+            return int(*args)
+        except (ValueError, TypeError) as x:
+            raise Raised(type(x).__name__, node)
+    raise Unknown("int%r" % (tuple(args),))
+
+
+def _abi_bytes(m, args, kwargs, node):
+    if kwargs or len(args) != 1:
+        raise Unknown("bytes%r" % (tuple(args),))
+    v = args[0]
+    if isinstance(v, bytes):
+        return v
+    if isinstance(v, Obj) and isinstance(v.data, dict) and "ip" in v.data:
+        return v.attrs["packed"]
+    if isinstance(v, (tuple, Obj)):
+        vals = m.native(v if isinstance(v, tuple) else v, "bytes()")
+        try:
+            return bytes(vals)
+        except (ValueError, TypeError) as x:
+            raise Raised(type(x).__name__, node)
+    raise Unknown("bytes(%r)" % (v,))
+
+
+def _abi_isinstance(m, args, kwargs, node):
+    if kwargs or len(args) != 2:
+        raise Unknown("isinstance%r" % (tuple(args),))
+    v, classes = args
+    names = []
+    for c in (classes if isinstance(classes, tuple) else (classes,)):
+        if isinstance(c, Obj) and c.kind == "builtin" and c.tag in ("str", "bytes", "int", "bool", "tuple", "list", "dict", "ipaddress.IPv6Address", "ipaddress.IPv4Address"):
+            names.append(c.tag)
+        else:
+            raise Unknown("isinstance(.., %r)" % (c,))
+    if isinstance(v, Obj) and v.token:
+        raise Unknown("isinstance(%r, ..), about which nothing is known," % (v,))
+    kind = None
+    if isinstance(v, bool):
+        kind = ("bool", "int")
+    elif isinstance(v, NATIVE) and v is not None:
+        kind = (type(v).__name__,)
+    elif isinstance(v, tuple):
+        kind = ("tuple",)
+    elif isinstance(v, Obj) and v.kind in ("list", "dict"):
+        kind = (v.kind,)
+    elif isinstance(v, Obj) and isinstance(v.data, dict) and "ip" in v.data:
+        kind = ("ipaddress.IPv%dAddress" % v.data["ip"][0],)
+    elif v is None:
+        kind = ()
+    else:
+        raise Unknown("isinstance(%r, ..)" % (v,))
+    return any(k in names for k in kind)
+
+
+_ADDR_BUILTINS = {"str": _abi_str, "repr": _abi_repr, "int": _abi_int, "bytes": _abi_bytes, "isinstance": _abi_isinstance}
